@@ -8,6 +8,7 @@ default and the differential correspondence decides).  What is extracted:
   gen_keep          character class kept by the regex  r"[^...]"   (ranges of code points)
   gen_repl          replacement text of re.sub
   gen_digit_guard   is the `if sanitized and sanitized[0].isdigit()` rule present; gen_digit_prefix
+  gen_reserved_guard  is the `... or sanitized.lower().startswith("sqlite")` rule present; gen_reserved_word
   gen_default       the `sanitized or "<default>"` text ([] if the rule is absent)
   gen_hash_sep / gen_hash_len   f"{sanitized}<sep>{hash}" and hexdigest()[:N]  (0 if no hash is appended)
   gen_comp_sep      TableNames: f"{sanitize_table_prefix(app_id)}<sep>{component}"
@@ -91,7 +92,8 @@ def _joined(node, names: list[str]):
 def parse_sanitize(fn: ast.FunctionDef) -> dict:
     _need([a.arg for a in fn.args.args] == ["app_id"], "sanitize_table_prefix signature changed")
     body = list(_strip_doc(fn.body))
-    out = {"digit_guard": False, "digit_prefix": "", "default": "", "hash_len": 0, "hash_sep": ""}
+    out = {"digit_guard": False, "digit_prefix": "", "default": "", "hash_len": 0, "hash_sep": "", "reserved_guard": False,
+           "reserved_word": ""}
     _need(body, "empty body")
     s = body.pop(0)
     _need(isinstance(s, ast.Assign) and _d(s.targets[0]) == _expr("sanitized").replace("Load", "Store")
@@ -102,7 +104,9 @@ def parse_sanitize(fn: ast.FunctionDef) -> dict:
     out["repl"] = s.value.args[1].value
     if body and isinstance(body[0], ast.If):
         s = body.pop(0)
-        _need(_d(s.test) == _expr("sanitized and sanitized[0].isdigit()") and not s.orelse and len(s.body) == 1
+        if _d(s.test) == _expr('sanitized and (sanitized[0].isdigit() or sanitized.lower().startswith("sqlite"))'):
+            out["reserved_guard"], out["reserved_word"] = True, "sqlite"      # proposed_fixes/C17-reserved-sqlite-prefix.diff
+        _need((out["reserved_guard"] or _d(s.test) == _expr("sanitized and sanitized[0].isdigit()")) and not s.orelse and len(s.body) == 1
               and isinstance(s.body[0], ast.Assign) and len(s.body[0].targets) == 1
               and isinstance(s.body[0].targets[0], ast.Name) and s.body[0].targets[0].id == "sanitized",
               "digit rule has an unknown shape")
@@ -245,6 +249,8 @@ def emit(p: dict) -> str:
         f"Definition gen_repl : str := {coq_str(p['repl'])}.",
         f"Definition gen_digit_guard : bool := {'true' if p['digit_guard'] else 'false'}.",
         f"Definition gen_digit_prefix : str := {coq_str(p['digit_prefix'])}.   (* {p['digit_prefix']!r} *)",
+        f"Definition gen_reserved_guard : bool := {'true' if p['reserved_guard'] else 'false'}.",
+        f"Definition gen_reserved_word : str := {coq_str(p['reserved_word'])}.   (* {p['reserved_word']!r} *)",
         f"Definition gen_default : str := {coq_str(p['default'])}.   (* {p['default']!r} *)",
         f"Definition gen_hash_sep : str := {coq_str(p['hash_sep'])}.   (* {p['hash_sep']!r} *)",
         f"Definition gen_hash_len : nat := {p['hash_len']}.",
@@ -277,7 +283,7 @@ def parse_repo(repo: str) -> dict:
 
 def translate(repo: str) -> tuple[str, dict]:
     p = parse_repo(repo)
-    info = {"purge": p["purge"], "hash_len": p["hash_len"], "components": [c for c, _ in p["vocab"]],
+    info = {"purge": p["purge"], "hash_len": p["hash_len"], "reserved_guard": p["reserved_guard"], "components": [c for c, _ in p["vocab"]],
             "tables": sum(len(s) for _, s in p["vocab"]), "keep": p["keep"]}
     return emit(p), info
 
